@@ -10,14 +10,10 @@ stack.go / cond.go / misc.go): `.ok none` = nil error (equal), `.ok (some cls)` 
 `inDomain` is the property's domain: initialised stacks / conditions of any derivative form in default mode whose
 leaves are primitives (no NaN), pointers to them at any depth, slices, arrays, maps and structs of such values.
 
-Two defects remain in the repaired code (`/tmp/fixed`, notes/candidate-fixes.patch) and are carried as known findings:
-
-* **K-C05-1** an exported embedded field opposite an unexported embedded field (including: a user struct whose only
-  field is an exported embedded one opposite a nested Stack / Condition) makes `structsEqual` call `Interface()` on an
-  unexported field: panic. Hence `C05_total` is proved under the hypothesis that all embedded fields on both sides
-  have the same visibility (`C05_total_partial`), and the unrestricted statement is refuted (`C05_total_refuted`).
-* **K-C05-2** a struct leaf whose only field is unexported is taken for equal to any Stack / Condition on its right
-  (`handleLike`); such leaves are outside `inDomain`.
+The two residual defects this check found in the first round of repairs are repaired in `/repo` as well (K-C05-1: an
+exported field opposite an unexported one is now "Struct field visibility mismatch" instead of a panic in
+`Value.Interface()`, commit 3778de3; K-C05-2: a plain struct is never equal to a Stack / Condition on its right, commit
+77dfc28). `inDomain` no longer excludes anything on their account and `C05_total` holds for every value.
 -/
 
 set_option linter.unusedSimpArgs false
@@ -52,7 +48,7 @@ theorem C05_nan (hook : EqHook) (f : Form) (c : Cfg) (t : Nat) (v : Text) (hc : 
   constructor
   · simp [sameDesc, sameVals, Leaf.toEV, sameEV, strip]
   · have h1 : stackHead c 1 c 1 = none := (stackHead_none_iff c c 1 1).mpr ⟨rfl, rfl, rfl⟩
-    simp [Val.IsEqual, hc, h1, stkLoop, Val.veq, Leaf.toEV, Val.toEV, veq, sideAny, unbox, deref, scalarEq, isPrim, primEqual,
+    simp [Val.IsEqual, hc, h1, stkLoop, Val.veq, leafVeq, isStructAny, Val.converts, Val.isStack, Val.isCond, Leaf.toEV, Val.toEV, veq, sideAny, unbox, deref, scalarEq, isPrim, primEqual,
       xkind, kind]
 
 /-- **C05 (same verdict both directions).** -/
@@ -98,7 +94,7 @@ theorem C05_point_mutation_leaf (hook : EqHook) (g : EV → EV) (p q : List Nat)
       | nil =>
           intro a hd h
           simp only [Val.at?, Option.some.injEq] at h; subst h
-          simp only [inDomain, Leaf.toEV, Bool.and_eq_true] at hd; exact hd.1
+          simp only [inDomain, Leaf.toEV] at hd; exact hd
       | cons i p ih =>
           intro a hd h
           simp only [Val.at?] at h
@@ -194,51 +190,53 @@ theorem C05_private_skipped (f : Fld) (fs : List Fld) (v v' : EV) (vs : List EV)
 
 /-! ## Never panics -/
 
-/-- C05 (never panics), full strength: for every handle `a` (initialised or zero), every argument `o` of the
-universe — typed nils, private-field structs, maps with other key sets, nil operators, zero instances, anything —
-and every equality policy, `a.IsEqual(o)` returns. -/
-def C05_total_statement : Prop :=
-  ∀ (hook : EqHook) (same : Bool) (a o : Val), a.isHandle = true → ∃ r, Val.IsEqual hook same a o = .ok r
+/-- **C05 (never panics).** For every handle `a` (initialised or zero-valued), every argument `o` of the universe —
+typed nils, structs with private or embedded fields of either visibility, maps with other key sets, nil operators, zero
+instances, `[]any`, declared scalar types, NaN, functions, channels, anything — and every equality policy, `a.IsEqual(o)`
+returns, with the pointer short-cut or without. `wfV` is only the representation invariant of the value encoding (the
+parallel lists of a map or struct have equal length), true of every Go value and of everything the driver parses. -/
+theorem C05_total (hook : EqHook) (same : Bool) (a o : Val) (ha : a.isHandle = true)
+    (hwa : wfV a = true) (hwo : wfV o = true) : ∃ r, Val.IsEqual hook same a o = .ok r :=
+  Val.IsEqual_total hook same a o ha hwa hwo
 
-/-- **C05 (never panics), proved part.** It holds whenever every embedded struct field on both sides has the same
-visibility `p` (all exported, or all unexported; nested Stacks / Conditions count as one unexported embedded field) and
-the values are well-formed representations (`tame`: parallel lists match, `exported` is what Go derives from the name).
-What is missing is exactly the known finding K-C05-1. -/
-theorem C05_total_partial (hook : EqHook) (p same : Bool) (a o : Val) (ha : a.isHandle = true)
-    (hta : tameTop p a = true) (hto : tameTop p o = true) : ∃ r, Val.IsEqual hook same a o = .ok r :=
-  Val.IsEqual_total hook p same a o ha hta hto
+/-- the same for `valuesEqual` on two arbitrary slots (no handle required) -/
+theorem C05_total_values (hook : EqHook) (x y : Val) (hx : wfV x = true) (hy : wfV y = true) :
+    ∃ r, Val.veq hook x y = .ok r :=
+  Val.veq_total hook x y hx hy
 
-/-- the unrestricted statement is false for the repaired code as it stands: `List().Push(struct{Emb}{…})` against
-`List().Push(And())` panics (K-C05-1; reproduced on the real code by harness/corpus/C05/residual.txt) -/
-theorem C05_total_refuted : ¬ C05_total_statement := by
-  intro h
-  have hp : Val.IsEqual (fun _ _ _ => none) false
-      (.stk .native { kind := 4 } [.leaf (.ev (.struct 20 [⟨['E', 'm', 'b'], true, true⟩] [.struct 16 [⟨['X'], true, false⟩] [.prim 1 ['1'] false]]))])
-      (.stk .native { kind := 4 } [.stk .native { kind := 1 } []]) = .error .panic := by rfl
-  obtain ⟨r, hr⟩ := h (fun _ _ _ => none) false
+/-- the former counterexample (K-C05-1): `List().Push(struct{Emb}{…})` against `List().Push(And())` is now an error -/
+example : Val.IsEqual (fun _ _ _ => none) false
     (.stk .native { kind := 4 } [.leaf (.ev (.struct 20 [⟨['E', 'm', 'b'], true, true⟩] [.struct 16 [⟨['X'], true, false⟩] [.prim 1 ['1'] false]]))])
-    (.stk .native { kind := 4 } [.stk .native { kind := 1 } []]) rfl
-  rw [hp] at hr
-  cases hr
+    (.stk .native { kind := 4 } [.stk .native { kind := 1 } []]) = .ok (some .cannotConvert) := by rfl
 
-/-- a rejection is an error, not a panic, under the hypotheses of `C05_total_partial` -/
-theorem C05_rejects_with_error (hook : EqHook) (p : Bool) (a b : Val) (ha : a.isHandle = true)
-    (hda : inDomain a = true) (hdb : inDomain b = true) (hta : tameTop p a = true) (htb : tameTop p b = true)
+/-- the former K-C05-2: `List().Push(struct{q int}{1})` against `List().Push(And())` is an error in both directions -/
+example :
+    Val.IsEqual (fun _ _ _ => none) false
+      (.stk .native { kind := 4 } [.leaf (.ev (.struct 19 [⟨['q'], false, false⟩] [.prim 1 ['1'] false]))])
+      (.stk .native { kind := 4 } [.stk .native { kind := 1 } []]) = .ok (some .cannotConvert) ∧
+    Val.IsEqual (fun _ _ _ => none) false
+      (.stk .native { kind := 4 } [.stk .native { kind := 1 } []])
+      (.stk .native { kind := 4 } [.leaf (.ev (.struct 19 [⟨['q'], false, false⟩] [.prim 1 ['1'] false]))]) = .ok (some .cannotConvert) := by
+  constructor <;> rfl
+
+/-- a rejection is an error, not a panic -/
+theorem C05_rejects_with_error (hook : EqHook) (a b : Val) (ha : a.isHandle = true)
+    (hda : inDomain a = true) (hdb : inDomain b = true) (hwa : wfV a = true) (hwb : wfV b = true)
     (h : sameDesc a b = false) : ∃ e, Val.IsEqual hook false a b = .ok (some e) := by
-  obtain ⟨r, hr⟩ := C05_total_partial hook p false a b ha hta htb
+  obtain ⟨r, hr⟩ := C05_total hook false a b ha hwa hwb
   cases r with
   | none => exact absurd hr (C05_rejects hook a b ha hda hdb h)
   | some e => exact ⟨e, hr⟩
 
 /-! ## The hypotheses are satisfiable by non-trivial states -/
 
-/-- `And().Push([]int{1,2,3}, &S{A: 7, b: 8}, Cond("kw", Eq, map[string]int{"a": 1}))` is in the domain and tame -/
+/-- `And().Push([]int{1,2,3}, &S{A: 7, b: 8}, Cond("kw", Eq, map[string]int{"a": 1}))` is in the domain and well-formed -/
 example :
     let a : Val := .stk .native { kind := 1 }
       [.leaf (.ev (.seq false 1 3 [.prim 1 ['1'] false, .prim 1 ['2'] false, .prim 1 ['3'] false])),
        .leaf (.ev (.ptr 0 (.struct 2 [⟨['A'], true, false⟩, ⟨['b'], false, false⟩] [.prim 1 ['7'] false, .prim 1 ['8'] false]))),
        .cnd .native { kind := 5 } ['k', 'w'] (.cmp 1) (.leaf (.ev (.map 1 [.prim 16 ['a'] false] [.prim 1 ['1'] false])))]
-    a.isHandle = true ∧ inDomain a = true ∧ tameTop false a = true := by
+    a.isHandle = true ∧ inDomain a = true ∧ wfV a = true := by
   decide
 
 /-- the historical defect: `[1 2 3]` against `[1 2 4]` is a difference (last position of a slice leaf) -/
